@@ -258,8 +258,11 @@ func (c *ExpressionParser) completeLexicalAnalysis() error {
 			}
 		case tokenizers.Word:
 			{
-				tokenType = Variable
-				tokenValue = variants.VariantFromString(token.Value())
+				// An empty quoted identifier cannot name a variable
+				if token.Value() != "" {
+					tokenType = Variable
+					tokenValue = variants.VariantFromString(token.Value())
+				}
 				break
 			}
 		case tokenizers.Integer:
